@@ -11,4 +11,4 @@ Extraction "BigInt/extracted/bigint.ml"
   fiBIntFrInt fiBIntToSInt fiBIntIsSingle fiBIntGcd fiBIntSIPower fiBIntBIPower fiBIntPowerMod
   fiBIntMod fiBIntRem fiBIntQuo fiBIntDivide fiBIntTimesPlus
   iintPlus iintMinus iintTimes iintTimesS iintTimesPlusS iintDivideS iintDivide iintDivide_ok iintShift
-  xintImmedIfCan xintStore val normb.
+  xintImmedIfCan xintStore val normb text_limit_ok.
